@@ -278,6 +278,9 @@ PROPERTIES['C04'] = {
          bounds='n <= 3 indices, <=3 chunks, 2 workers; std::stable_sort(size_t*) modelled by insertion sort', targets=['edge_op.cpp FlagStore::run_par']),
     dict(name='cmp_halfedge', harness='c04_determinism.cpp', entry='h_cmp_halfedge', par=True, backends=['minisat'], timeout=300, unwind={'default': 2},
          claim='Halfedge::operator< is a strict weak order; incomparable <=> same (startVert,endVert)', bounds='all int fields', targets=['shared.h Halfedge::operator<']),
+    dict(name='cmp_pairdata', harness='c04_pairdata.cpp', entry='h_cmp_pairdata', backends=['minisat'], timeout=300, unwind={'default': 2},
+         claim='HalfedgePairData::operator< (sort key of the large-vertex path of CreateHalfedges, whose bucket slots are allocated in schedule order): strict weak order whose ties are exactly equal (larger vertex, triangle) - the key that identifies an entry inside a bucket - so the per-bucket sort removes the schedule',
+         bounds='all int field values', targets=['impl.cpp HalfedgePairData::operator<']),
     dict(name='cmp_tmpedge', harness='c04_determinism.cpp', entry='h_cmp_tmpedge', par=True, backends=['minisat'], timeout=300, unwind={'default': 2},
          claim='TmpEdge: constructor normalises first<=second; operator< strict weak order with ties = equal (first,second)', bounds='all int fields', targets=['shared.h TmpEdge']),
     dict(name='cmp_edgepos', harness='c04_edgepos.cpp', entry='h_cmp_edgepos', backends=['minisat'], timeout=300, unwind={'default': 2},
@@ -520,11 +523,11 @@ PROPERTIES['C14']['obligations'] += [
          targets=['tree2d.cpp BuildTwoDTree, BuildTwoDTreeImpl', 'parallel.h stable_sort (Seq)'])
 ]
 PROPERTIES['C18']['obligations'] += [
-    dict(name='raycast_axis%d' % ax, harness='c18_raycast.cpp', entry='h_raycast', defs={'VF_AXIS': ax, 'VF_R': 2}, real='f16',
+    dict(name='raycast_axis%d' % ax, harness='c18_raycast.cpp', entry='h_raycast', defs={'VF_AXIS': ax, 'VF_R': 2, 'VF_CONCRETE_TRI': 1}, real='f16',
          models=['stdlib.h'], unwind={'default': 14, 'FindCollision': 3, 'realloc_insert|insertion_sort|introsort': 3, 'RadixTree|RangeEnd|FindSplit': 8}, recursion={'default': 2}, backends=['kissat', 'minisat'], timeout=2400, mem_gb=24, object_bits=12,
          tiers=['experimental'],
          claim='Impl::RayCast on a surface triangle (real Collider, Kernel12<false,true>, t filter, sort): every returned hit names the triangle, has 0<=t<=1 and a position on the segment; in general position (no exact 3D or projected coincidence) there is exactly one hit iff the exact integer orientation tests say the segment properly crosses the triangle, and none otherwise - for both directions of travel',
-         bounds='one lattice triangle in [-2,2]^3 (vertex positions symbolic, so both orientations; zero normals: they only break exact ties), segment parallel to axis %d with both ends on the lattice line in [-3,3]; IEEE binary16 arithmetic inside the kernels (rationals met here are separated by >= 1/4)' % ax,
+         bounds='one CONCRETE triangle in general position ((2,-2,-1),(-1,2,-2),(-2,-1,2), coordinate roles rotated with the axis; zero normals: they only break exact ties), SYMBOLIC segment parallel to axis %d with both ends on the lattice line in [-3,3]; IEEE binary16 arithmetic inside the kernels (rationals met here are separated by >= 1/4)' % ax,
          targets=['boolean3.cpp Impl::RayCast, Kernel12, Kernel11, Kernel02, Shadow01', 'shared.h Intersect, Interpolate, Shadows', 'collider.h Collider, FindCollision'])
     for ax in (0, 1, 2)]
 PROPERTIES['C10']['obligations'] += [
